@@ -2,6 +2,7 @@ import Hv.Driver.Core
 import Hv.Driver.Vdi
 import Hv.Driver.Vhd
 import Hv.Driver.Hds
+import Hv.Driver.Vhdx
 open Hv Hv.Driver
 
 def dispatch (st : St) (toks : List String) : String :=
@@ -11,6 +12,7 @@ def dispatch (st : St) (toks : List String) : String :=
     if cmd.startsWith "vdi." then vdiCmd st toks
     else if cmd.startsWith "vhd." then vhdCmd st toks
     else if cmd.startsWith "hds." then hdsCmd st toks
+    else if cmd.startsWith "vhdx." then vhdxCmd st toks
     else "bad-cmd"
 
 partial def loop (h : IO.FS.Stream) (out : IO.FS.Stream) (st : St) : IO Unit := do
